@@ -658,3 +658,4 @@ RENAME_FUNCS = [(PE, 'PerformanceOneHotEncoding.encode_event'), (PE, 'Performanc
 
 EXPLANATION += (' Location-independent additions: INV/chords-block-split (dividend of divmod / // / % by the octave is index - 1), TAB/performance-range-inclusion (a range is listed iff lo <= hi). Module-level numeric constants are folded in all normal forms (nf.GLOBAL_CONSTS).')
 EXPLANATION += (' Round 6: ' + 'PITFALL/narrowing-cast over every method of every one-hot encoding; PITCHCLASS/reduced (chord_symbol_root / chord_symbol_bass return a value reduced modulo 12; a reduction written as loops is judged at -1, 0, 11, 12).')
+EXPLANATION += (' Round 7: ' + 'INV/melody-scenarios (three ranges x five events, encode and decode folded); CHORD/quality-needs-all-degrees.')
